@@ -237,6 +237,19 @@ def conn_key(u: U):
                 and k.is_ssl is True and k.ssl == "SSLCTX" and k.proxy == "PROXY" and k.server_hostname == "SNI"
                 and (k.proxy_headers_hash is None) == (ph is None),
                 "key == (host, port, is_ssl, ssl, proxy, hash(proxy headers), server_hostname) of this request")
+        if ph is not None:
+            # the proxy-headers component must depend on the header VALUES (Proxy-Authorization carries the identity
+            # a tunnel was opened for): same names, different value => different key
+            from multidict import CIMultiDict
+
+            keys = []
+            for val in ("Basic YWxpY2U6cHc=", "Basic Ym9iOnB3"):
+                fields(req)["proxy_headers"] = CIMultiDict({"Proxy-Authorization": val})
+                o = u.call(f, req)
+                keys.append(o.value if o.ok else None)
+            u.check("C06.key.proxy_identity_distinguishes", None not in keys and keys[0] != keys[1],
+                    "requests that present different proxy credentials never share a pooled connection / tunnel")
+            fields(req)["proxy_headers"] = ph
     g = u.load(RR, "ClientRequestBase.connection_key")
     o2 = u.call(g, req)
     if o2.ok:
@@ -249,12 +262,13 @@ def conn_key(u: U):
 # (D) data_received / set_response_params
 
 
-@unit("C06", "proto.data_received", functions=[f"{PROTO}:ResponseHandler.data_received"])
+@unit("C06", "proto.data_received", functions=[f"{PROTO}:ResponseHandler.data_received"], also=("C18",))
 def proto_data_received(u: U):
     """data_received: bytes never reach an HTTP parser unless one is installed and the connection is not upgraded;
     a parse failure closes the transport and records an error (should_close from then on); a message that announces
     close marks the protocol; every complete message is queued (so an idle connection that receives one is not clean)"""
     log = []
+    rearmed = []
     data = u.bytes("data")
     has_parser = u.choose(2, "has_parser") == 1
     upgraded = u.choose(2, "upgraded") == 1 if has_parser else False
@@ -265,7 +279,7 @@ def proto_data_received(u: U):
 
     class _Msg:
         should_close = msg_close
-        code = 200
+        code = (200, 204)[u.choose(2, "message.code")] if has_parser and not parse_fails else 200
 
     class _Pl:
         def on_eof(self, cb):
@@ -291,8 +305,8 @@ def proto_data_received(u: U):
     p = u.obj("ResponseHandler",
               {"_payload_parser": _PP() if has_pp else None, "_data_received_cb": None, "_upgraded": upgraded,
                "_parser": _Parser() if has_parser else None, "_tail": tail0, "transport": _T(), "_should_close": False,
-               "_payload": None, "_skip_payload": False},
-              {"_reschedule_timeout": lambda self: None, "_drop_timeout": lambda self: None,
+               "_payload": None, "_skip_payload": u.choose(2, "skip_payload") == 1 if has_parser and not parse_fails else False},
+              {"_reschedule_timeout": lambda self: rearmed.append(True), "_drop_timeout": lambda self: None,
                "feed_data": lambda self, item: log.append(("queue", item)),
                "set_exception": lambda self, exc, cause=None: log.append(("set_exception", type(exc).__name__))},
               shared=False)
@@ -301,6 +315,9 @@ def proto_data_received(u: U):
     u.loop("client_proto:ResponseHandler.data_received", 0, unroll=True, bound=3)
     out = u.call(f, p, data)
     u.check("C06.data.total", out.ok, f"no exception escapes into the event loop: {out!r}")
+    u.check("C18.sockread.every_chunk_restarts_the_timer", Implies(blen(data) > 0, len(rearmed) >= 1),
+            "every chunk received restarts the sock_read timer from now (the bound is 'sock_read after the LAST byte'); "
+            "the empty resume call does not")
     names = [e[0] for e in log]
     fs = fields(p)
     if has_pp:
